@@ -100,3 +100,35 @@ extern "C" void c15_drive_incoro(int nlist, int v1, int v2, int by_ref) {
         // s destroyed (the producer's collector went with its frame): every still waiting listener is released with await_canceled_exception
     }
 }
+
+// ---- signal<void>: the same scenario without a value - each emission resumes every waiting listener exactly once; disconnect wakes all.
+using SIGV = signal<void>;
+C15_CORO_LINKAGE c15_task c15_listener_v(SIGV::emitter e, c15_log *log) {
+    try {
+        for (;;) {
+            co_await e;
+            log->n++;
+        }
+    } catch (const await_canceled_exception &) {
+        log->canceled++;
+    } catch (...) {
+        log->other_exc++;
+    }
+    log->done++;
+}
+struct c15_drive_cbv {
+    c15_log *log;
+    bool operator()() { log->n++; return log->n < g_cb_limit; }
+};
+extern "C" void c15_drive_void(int nlist, int late) {
+    {
+        SIGV s;
+        SIGV::collector c = s.get_collector();
+        for (int i = 0; i < nlist; i++) { g_frame_kind = 3; c15_listener_v(s.get_emitter(), &g_log[i]); }
+        s.connect(c15_drive_cbv{&g_log[3]});
+        c();                                                 // first emission
+        if (late) { g_frame_kind = 3; c15_listener_v(s.get_emitter(), &g_log[2]); }
+        c();                                                 // second emission
+        // c, then s destroyed: every still waiting listener is released with await_canceled_exception
+    }
+}
